@@ -170,6 +170,31 @@ func (m *monStopRace) judge(td *TD) *Viol {
 func (m *monStopRace) Quiescent(td *TD, p Pending) *Viol { return m.judge(td) }
 func (m *monStopRace) End(td *TD) *Viol                  { return m.judge(td) }
 
+// c14RaceSuites: a fold that closes a betting round while the hand goes on (three-handed: raise, call, fold by the
+// big blind). PlayerFold records the fold round after the hand engine has accepted the fold; the hand's updater
+// goroutine moves to the next round without the engine lock. The answer runs in a fine-mode thread, every
+// schedule within the bound is executed.
+func c14RaceSuites(tier string) []*Suite {
+	bound := 1
+	if tier == "thorough" {
+		bound = 2
+	}
+	var ss []*Suite
+	for _, n := range []int{3, 4} {
+		n := n
+		var init []seatSpec
+		for i, id := range []string{"a", "b", "c", "d"}[:n] {
+			init = append(init, seatSpec{id: id, seat: i, chips: 12, joined: true})
+		}
+		hc := &histCfg{name: fmt.Sprintf("race-fold/n%d", n), tcfg: defaultCfg(4), init: init, hands: 1, lines: []string{"raise-call-fold"}, decks: []string{"asc"}, finish: []string{"all"}, newStack: 3,
+			race: &raceCfg{nth: 2, op: "noop"}}
+		ss = append(ss, &Suite{Name: "c14/" + hc.name, Bound: bound, Weight: 20, Run: func(prefix []int) *vrt.Exec {
+			return runHist(prefix, hc, vrt.Config{FineAll: true}, func(h *hist) []Monitor { return []Monitor{&monRaceViol{h: h}} })
+		}})
+	}
+	return ss
+}
+
 // monInvariant: the C03 bookkeeping invariant at every quiescent point.
 type monInvariant struct{ baseMon }
 
